@@ -13,9 +13,10 @@ def to_ir(self: Expression) -> ir.Expression:
 
 @to_ir.register(Integer)
 def to_ir_integer(self: Integer):
-    # This is sensible as long as we only support floating point values and don't support division. If either of those
-    # ceases to be true, this will need to be updated.
-    return ir.IntegerLiteral(self.value)
+    # Tensor values are floating point, so an integer literal in an assignment denotes the floating point number with
+    # that value. Emitting an integer literal would make literal-only subexpressions int32 arithmetic, which overflows
+    # (65536 * 65536 evaluated to 0) and cannot represent literals beyond the int32 range at all.
+    return ir.FloatLiteral(float(self.value))
 
 
 @to_ir.register(Float)
